@@ -65,19 +65,20 @@ class Client:
         self.irset = None
         self.flag_samples = 0
         self.flag_without_socket: List[dict] = []
+        self.sock_mark = 0           # sockets created before the latest completed disconnect do not count
         sim.wall_watchers.append(self._wall)
         sim.iteration_hooks.append(self._sample_flag)
 
     def _sample_flag(self):
-        """Sampled at every loop iteration: `connected` implies an established socket that the client has not closed
-        itself (the transport closes it on its own once the peer has reset or ended the stream, and the flag then
-        rightly stays up until disconnect; a disconnect in progress may clear the flag a cycle after closing)."""
+        """Sampled at every loop iteration: `connected` implies that a socket created since the last disconnect has
+        become established.  (Whether it is still open is not asked: the transport closes it on its own once the peer
+        has reset the connection, a client may close it itself after a failed operation, and in both cases the flag
+        rightly stays up until disconnect; a disconnect in progress may clear the flag a cycle after closing.)"""
         if self.api is None or (self.cur is not None and self.cur.kind in ("disconnect", "aexit")):
             return
         self.flag_samples += 1
         if self.api.connected and len(self.flag_without_socket) < 3 and not any(
-                s.conn is not None and s.conn.established and (not s.closed or s.conn.rx_rst or s.conn.rx_fin)
-                for s in self.socks):
+                s.conn is not None and s.conn.established for s in self.socks[self.sock_mark:]):
             self.flag_without_socket.append({"seq": self.sim.seq, "during": self.cur.kind if self.cur else None})
 
     def _wall(self):
@@ -250,6 +251,21 @@ class BodyBaseError(BaseException):
     """... or one that is not an Exception (like CancelledError or KeyboardInterrupt)."""
 
 
+# what the body of an `async with` may end with: the exception need not have anything to do with this object
+BODY_EXCEPTIONS = {
+    "plain": BodyError, "base": BodyBaseError, "cancelled": asyncio.CancelledError, "keyboard": KeyboardInterrupt,
+    "systemexit": SystemExit, "generatorexit": GeneratorExit, "runtime": RuntimeError, "value": ValueError,
+    "key": KeyError, "oserror": OSError, "connection": ConnectionError, "reset": ConnectionResetError,
+    "refused": ConnectionRefusedError, "aborted": ConnectionAbortedError, "pipe": BrokenPipeError,
+    "timeout": TimeoutError, "eof": EOFError, "stopasynciteration": StopAsyncIteration, "memory": MemoryError,
+}
+BODY_EXCEPTION_KINDS = sorted(BODY_EXCEPTIONS)
+
+
+def body_exception_class(kind):
+    return BODY_EXCEPTIONS.get(kind, BodyError)
+
+
 async def exec_step(cl: Client, st: Dict[str, Any]):
     sim = cl.sim
     kind = st["kind"]
@@ -296,8 +312,7 @@ async def exec_step(cl: Client, st: Dict[str, Any]):
             res = None
         elif kind == "aexit":
             if st.get("exc"):
-                ecls = {"cancelled": asyncio.CancelledError, "keyboard": KeyboardInterrupt, "base": BodyBaseError,
-                        }.get(st.get("exc_kind"), BodyError)
+                ecls = body_exception_class(st.get("exc_kind"))
                 e = ecls("body failed")
                 r = await cl.api.__aexit__(ecls, e, None)
             else:
@@ -329,6 +344,8 @@ async def exec_step(cl: Client, st: Dict[str, Any]):
         op.extra["socks"] = [(s.fd, s.closed, s.conn.cid if s.conn else None,
                               bool(s.conn and s.conn.client_fin)) for s in cl.socks]
         op.extra["connected_settled"] = bool(cl.api.connected)
+        if kind in ("disconnect", "aexit"):
+            cl.sock_mark = len(cl.socks)
     sim.rec("op", cl.idx, op.uid, kind, "return", op.outcome[0], op.outcome[1] if op.outcome[0] == "exc" else None)
 
 
